@@ -22,7 +22,7 @@ const KEYWORDS: &[&str] = &[
 ];
 const PUNCT: &[&str] = &[
     "{", "}", "(", ")", "[", "]", "<", ">", ";", ",", "?", "+", "++", "+=", "-", "--", "-=", "/", "/=", "%", "%=", "*", "*=",
-    "|", "||", "|=", "&", "&&", "&=", "^", "^=", "=", "==", "@", "!", "!=", "~", ".", ":", "::",
+    "|", "||", "|=", "&", "&&", "&=", "^", "^=", "=", "==", "@", "!", "!=", "~", ".", ":", "::", "#", "##",
 ];
 const WORDS: &[&str] = &["a", "_b1", "x", "e1", "f", "Texture2D", "float4"];
 const LITS: &[&str] = &[
@@ -48,7 +48,7 @@ fn class_alphabet() -> Vec<&'static str> {
     vec![
         "a", "x", "e1", "if", "true", "unsigned", "0", "12", "0x1F", "017", "1u", "3l", "1.0", "1.5f", "2.h", "1e5", "\"s\"", "{", ")",
         "[", "<", ">", ";", ",", "+", "++", "+=", "-", "--", "/", "*", "|", "||", "&", "&&", "=", "==", "!", "!=", "~", ".", ":",
-        "::", "?", "\"unterminated", "/*", "$",
+        "::", "?", "\"unterminated", "/*", "$", "#", "##",
     ]
 }
 
@@ -126,6 +126,23 @@ fn lex_alone(tok: &str) -> Option<Token> {
     }
 }
 
+/// Can a '#' of this text start a directive? Some(false): certainly not (every '#' follows another token on its logical
+/// line); Some(true): yes; None: undecided (comments or strings present, where a plain scan is not exact).
+fn hash_directive_possible(text: &str) -> Option<bool> {
+    if !text.contains('#') {
+        return Some(false);
+    }
+    if text.contains('/') || text.contains('"') {
+        return None;
+    }
+    // a line splice separates tokens in rssl but does not end the logical line
+    let logical = text.replace("\\\r\n", " ").replace("\\\n", " ");
+    Some(logical.split('\n').any(|l| {
+        let t = l.trim_start_matches([' ', '\t', '\r']);
+        t.starts_with('#') && !t.starts_with("##")
+    }))
+}
+
 pub fn check_text(text: &str, parts: Option<(&[&str], &[&str])>, acc: &mut Acc) {
     acc.evals += 1;
     let len = text.len() as u32;
@@ -135,6 +152,16 @@ pub fn check_text(text: &str, parts: Option<(&[&str], &[&str])>, acc: &mut Acc) 
         }
         Ok(Err((rendered, pos))) => {
             acc.count("texts_rejected");
+            // a '#' that is not the first token of a logical line is an ordinary token: the text must not be treated as
+            // containing a directive
+            if pos.is_none() && hash_directive_possible(text) == Some(false) {
+                acc.violation(viol(
+                    "span|hash-inside-a-line-treated-as-directive",
+                    format!("text {:?} has no '#' at the start of a logical line but is rejected as a directive: {}", text, rendered.lines().next().unwrap_or("")),
+                    text,
+                ));
+                return;
+            }
             if let Some(p) = pos {
                 if p > len {
                     acc.violation(viol(
@@ -150,6 +177,11 @@ pub fn check_text(text: &str, parts: Option<(&[&str], &[&str])>, acc: &mut Acc) 
             acc.outcome(&("err", rendered.lines().next().unwrap_or("").to_string()));
         }
         Ok(Ok(l)) => {
+            // directive lines are consumed by the preprocessor: their tokens are not in the output
+            if hash_directive_possible(text) != Some(false) {
+                acc.count("texts_with_a_possible_directive_not_checked_for_tiling");
+                return;
+            }
             // tiling
             let mut cur = 0u32;
             let mut expected_unlex = String::new();
